@@ -60,6 +60,11 @@ def run(ctx):
                           'every token kind and known macro name (G-soup), every built-in macro name followed by truncated argument shapes; all option '
                           'records; non-trivial = distinct source/option pair')
     results = ctx.pmap(t2t.run_case, cases)
+    for i, r in enumerate(results):
+        if r['outcome'] == 'timeout':
+            # run it again, alone and with a generous limit: a busy machine must not look like a hang
+            ctx.count('timeout_retried')
+            results[i] = t2t.run_case(dict(cases[i], timeout=60))
     for c, r in zip(cases, results):
         ctx.case((c['src'], repr(sorted((c.get('opts') or {}).items())), c.get('multi')))
         ctx.count('kind_' + c['kind']); ctx.count('outcome_' + r['outcome'])
